@@ -452,6 +452,11 @@ class Ctx(object):
             r = res['r']
             if res.get('tolerance'):
                 st['tolerance'] += 1
+            if res.get('cross'):
+                st['cross_done'] = st.get('cross_done', 0) + 1
+                st['cross_' + res['cross'].lower()] = st.get('cross_' + res['cross'].lower(), 0) + 1
+                if res['cross'] == 'DISAGREE':
+                    self.inconclusive.append('%s: SOLVER-DISAGREEMENT z3 unsat / cvc5 sat' % label)
             if res.get('normal_form'):
                 st['normal_form'] = st.get('normal_form', 0) + 1
             if res.get('linear_box_bound'):
@@ -489,7 +494,7 @@ class Ctx(object):
             s0.set('timeout', min(10000, self.S.obligation_timeout_ms))
             for c in allt:
                 s0.add(T.to_z3(c, memo, abstract_apps=True))
-            if str(s0.check()) == 'unsat':
+            if str(s0.check()) == 'unsat' and self._cross(s0, out):
                 out['r'] = 'unsat'
                 out['abstracted_norm_atoms'] = True
                 return out
@@ -506,7 +511,7 @@ class Ctx(object):
                 if cleared and (goal.op == 'or' or len(cleared) == 1) and goal.op != 'and':
                     s2 = ENG.fresh_solver_abs(min(10000, self.S.obligation_timeout_ms))
                     s2.add(T.to_z3_abs(T.or_(*cleared)))
-                    if str(s2.check()) == 'unsat':
+                    if str(s2.check()) == 'unsat' and self._cross(s2, out):
                         out['r'] = 'unsat'
                         out['cleared_denominators'] = True
                         return out
@@ -516,7 +521,7 @@ class Ctx(object):
             # uninterpreted applications abstracted to variables: pure NRA, decided by nlsat; unsat carries over
             s1 = ENG.fresh_solver_abs(min(10000, self.S.obligation_timeout_ms))
             s1.add(T.to_z3_abs(goal))
-            if str(s1.check()) == 'unsat':
+            if str(s1.check()) == 'unsat' and self._cross(s1, out):
                 out['r'] = 'unsat'
                 out['abstracted_apps'] = True
                 return out
@@ -576,12 +581,44 @@ class Ctx(object):
                 out['tolerance'] = True
         if r == 'unknown' and len(goals) > 1:
             r, model, s = self._split(goals)
+        if r == 'unsat' and s is not None and not self._cross(s, out):
+            r = 'unknown'
         out['r'] = r
         if r == 'sat':
             model = self._nice(s, model)
             out['vals'], out['funcs'] = self._values_from_model(model)
             out['explain'] = self._explain(model, lt, rt)
         return out
+
+    def _cross(self, solver, out):
+        """Second opinion on a z3 `unsat` (thorough tier): the same assertions, exported as SMT-LIB2, are given to
+        cvc5 with a short time limit.  Records 'agree' / 'unknown'; a cvc5 `sat` withdraws the verdict."""
+        budget = getattr(self.S, 'cross_check', 0)
+        if not budget or self.stats.get('cross_done', 0) + getattr(self, '_cross_local', 0) >= budget:
+            return True
+        self._cross_local = getattr(self, '_cross_local', 0) + 1
+        try:
+            import cvc5
+            txt = solver.to_smt2()
+            slv = cvc5.Solver()
+            slv.setOption('tlimit-per', '5000')
+            slv.setLogic('ALL')
+            prs = cvc5.InputParser(slv)
+            prs.setStringInput(cvc5.InputLanguage.SMT_LIB_2_6, txt, 'q')
+            sm = prs.getSymbolManager()
+            res = 'unknown'
+            while True:
+                cmd = prs.nextCommand()
+                if cmd.isNull():
+                    break
+                o = str(cmd.invoke(slv, sm)).strip()
+                if o in ('sat', 'unsat', 'unknown'):
+                    res = o
+        except Exception as e:          # parser / option problems: no opinion
+            out['cross'] = 'unknown'
+            return True
+        out['cross'] = {'unsat': 'agree', 'sat': 'DISAGREE'}.get(res, 'unknown')
+        return res != 'sat'
 
     def _split(self, goals):
         worst = 'unsat'
